@@ -280,7 +280,9 @@ theorem C19_large_psbt_reply (hL : L.RT) (a : α) (hok : L.ok .psbt a = true)
     header, and its length fits the u32 length field of `write_vec` -/
 theorem C19_frame_size : 2 + 2 + 65535 + 64 ≤ maxMessageSize ∧ maxMessageSize < 256 ^ 4 := by decide
 
-/-- `msgs::read (write_vec (as_vec m) ++ rest) = m`: the framed path (`write`/`write_vec` → `read`), with
+/-- (Quantifies over the byte string of the stream; independence of the delivery granularity — short
+    reads of the transport — is validated by the correspondence harness only, see `Model/Wire.lean`.)
+    `msgs::read (write_vec (as_vec m) ++ rest) = m`: the framed path (`write`/`write_vec` → `read`), with
     arbitrary bytes of the next frame following -/
 theorem C19_framed (hL : L.RT) (reg : List Entry) (maxMsg i : Nat) (e : Entry) (v : Val α) (rest : Bytes)
     (hi : reg[i]? = some e) (hns : i ∉ shadowedIdx reg)
